@@ -597,11 +597,17 @@ func (c *Client) negotiateVersion(ctx context.Context) error {
 		return err
 	}
 	serverVersions := bi.ResponsePayload.(*payloads.DiscoverVersionsResponsePayload).ProtocolVersion
-	if len(serverVersions) == 0 {
-		return errors.New("Protocol version negotiation failed. No common version found")
+	// Adopt the highest version we support that the server advertises too. Do not rely on
+	// the order of the server's list, nor on it being restricted to what we offered.
+	// c.supportedVersions is sorted from the highest to the lowest version.
+	for _, v := range c.supportedVersions {
+		if slices.Contains(serverVersions, v) {
+			version := v
+			c.version = &version
+			return nil
+		}
 	}
-	c.version = &serverVersions[0]
-	return nil
+	return errors.New("Protocol version negotiation failed. No common version found")
 }
 
 // Request sends a single KMIP operation request with the specified payload and returns the corresponding response payload.
